@@ -381,3 +381,17 @@ def attribute_pieces(ctx):
 def _dumpname(n):
     from ..engine.pattern import _dump
     return _dump(n)
+
+
+@rule("C05.nested-def-precedence", min_instances=3)
+def nested_def_precedence(ctx):
+    """a def written inside another def shadows a top-level def of the same name where both are visible: the table of callable defs is built with the nested (closure) defs taking precedence"""
+    db = ctx.db
+    un = db.func("util.SetLikeDict.union")
+    oth = pn(un, 1)
+    ok = P.has(un, "$x = SetLikeDict(**self)\n$x.update(%s)\nreturn $x" % oth) or P.has(un, "$x = SetLikeDict(self)\n$x.update(%s)\nreturn $x" % oth) or P.has(un, "return SetLikeDict({**self, **%s})" % oth)
+    ctx.check(ok, "union.second-wins", db.where(un), "SetLikeDict.union no longer lets the values of its argument take precedence over those of the receiver", "copy of self updated with the argument")
+    df = db.func("codegen._Identifiers.defs")
+    ctx.check(P.has(df, "return set(self.topleveldefs.union(self.closuredefs).values())"), "defs.closure-over-toplevel", db.where(df), "the defs visible in a scope are not `topleveldefs.union(closuredefs)`: a nested def no longer shadows the top-level def of the same name (calling it by name writes the other def's body)", "topleveldefs.union(closuredefs): nested defs win")
+    wt = db.func("codegen._GenerateRenderMethod.write_toplevel")
+    ctx.check(P.has(wt, "$m.topleveldefs = $mit.union($main.topleveldefs)"), "module.toplevel", db.where(wt), "module-level identifiers do not take over the main body's top-level defs", "module topleveldefs = union with the body's")
